@@ -242,6 +242,120 @@ structure DbcMessage where
   signals : List DbcSignal := []
   deriving Repr, DecidableEq, Inhabited
 
+/-! ## attributes -/
+
+/-- `AttributeType` -/
+inductive AttrType | string | integer | float | enum
+  deriving Repr, DecidableEq, Inhabited
+
+/-- `*StringAttribute`: Name(), defValue -/
+structure StrAttr where
+  name : String
+  defValue : String := ""
+  deriving Repr, DecidableEq, Inhabited
+
+/-- `*IntegerAttribute`: Name(), defValue, min, max, isHexFormat -/
+structure IntAttr where
+  name : String
+  defValue : Int := 0
+  min : Int := 0
+  max : Int := 0
+  isHexFormat : Bool := false
+  deriving Repr, DecidableEq, Inhabited
+
+/-- `*FloatAttribute` -/
+structure FloatAttr where
+  name : String
+  defValue : Rat := 0
+  min : Rat := 0
+  max : Rat := 0
+  deriving Repr, DecidableEq, Inhabited
+
+/-- `*EnumAttribute`: Name(), defValue, Values() (by index) -/
+structure EnumAttr where
+  name : String
+  defValue : String := ""
+  values : List String := []
+  deriving Repr, DecidableEq, Inhabited
+
+/-- `Attribute` (interface): `att.Type()` / `ToString()` / `ToInteger()` / `ToFloat()` / `ToEnum()` ↦ `match` -/
+inductive Attr where
+  | string (a : StrAttr)
+  | integer (a : IntAttr)
+  | float (a : FloatAttr)
+  | enum (a : EnumAttr)
+  deriving Repr, DecidableEq, Inhabited
+
+def Attr.name : Attr → String
+  | .string a => a.name
+  | .integer a => a.name
+  | .float a => a.name
+  | .enum a => a.name
+
+/-- the `any` value of an assignment; `v.(T)` ↦ `asStr` / `asInt` / `asFloat` (panic on another type) -/
+inductive AnyVal where
+  | str (s : String)
+  | int (i : Int)
+  | float (q : Rat)
+  deriving Repr, DecidableEq, Inhabited
+
+def asStr : AnyVal → Res String
+  | .str s => .val s
+  | _ => .panic
+
+def asInt : AnyVal → Res Int
+  | .int i => .val i
+  | _ => .panic
+
+def asFloat : AnyVal → Res Rat
+  | .float q => .val q
+  | _ => .panic
+
+/-- `*AttributeAssignment`: attribute, value -/
+structure AttrAssignment where
+  att : Attr
+  value : AnyVal
+  deriving Repr, DecidableEq, Inhabited
+
+/-- `dbc.Attribute` -/
+structure DbcAttribute where
+  kind : Acme.Dbc.AttributeKind := .general
+  type : Acme.Dbc.AttributeType := .int
+  name : String := ""
+  minInt : Int := 0
+  maxInt : Int := 0
+  minHex : Nat := 0
+  maxHex : Nat := 0
+  minFloat : Rat := 0
+  maxFloat : Rat := 0
+  enumValues : List String := []
+  deriving Repr, DecidableEq, Inhabited
+
+/-- `dbc.AttributeDefault` -/
+structure DbcAttributeDefault where
+  type : Acme.Dbc.AttrValType := .int
+  attributeName : String := ""
+  valueString : String := ""
+  valueInt : Int := 0
+  valueHex : Nat := 0
+  valueFloat : Rat := 0
+  deriving Repr, DecidableEq, Inhabited
+
+/-- `dbc.AttributeValue` -/
+structure DbcAttributeValue where
+  attributeKind : Acme.Dbc.AttributeKind := .general
+  type : Acme.Dbc.AttrValType := .int
+  attributeName : String := ""
+  nodeName : String := ""
+  messageID : Nat := 0
+  signalName : String := ""
+  envVarName : String := ""
+  valueString : String := ""
+  valueInt : Int := 0
+  valueHex : Nat := 0
+  valueFloat : Rat := 0
+  deriving Repr, DecidableEq, Inhabited
+
 /-- `dbc.Nodes` -/
 structure DbcNodes where
   names : List String := []
@@ -258,6 +372,14 @@ structure St where
   valueTables : List Acme.Dbc.ValueTable := []
   /-- `e.dbcFile.Nodes` (a pointer, nil until `exportNodeInterfaces` sets it) -/
   nodes : Option DbcNodes := none
+  attributes : List DbcAttribute := []
+  attributeDefaults : List DbcAttributeDefault := []
+  attributeValues : List DbcAttributeValue := []
+  /-- `e.attNames` / `nodeAttNames` / `msgAttNames` / `sigAttNames` (maps used as sets) -/
+  attNames : List (String × Bool) := []
+  nodeAttNames : List (String × Bool) := []
+  msgAttNames : List (String × Bool) := []
+  sigAttNames : List (String × Bool) := []
   deriving Repr, Inhabited
 
 end Acme.XSem
